@@ -416,12 +416,18 @@ class Model(EconomicObject):
         Logger('Starting LogInfo() Data Dump')
         Logger('-'*30)
         if generate_full_codes:
+            saved_codes = [(s, s.FullCode) for s in self.GetSectors()]
             self._GenerateFullSectorCodes()
             for c in self.CountryList:
                 Logger('Country: Code= "%s" %s\n' % (c.Code, c.LongName))
                 Logger('=' * 60 + '\n\n')
                 for s in c.SectorList:
                     Logger(s.Dump() + '\n')
+            if self.State == 'Construction':
+                # The model is still being built: the codes generated for this dump may change
+                # (another Country may be added), so do not leave them behind.
+                for s, code in saved_codes:
+                    s.FullCode = code
         Logger('Writing LogInfo to log="eqn"')
         Logger('\n\nFinal Equations:\n', log='eqn')
         Logger(self.FinalEquations + '\n', log='eqn')
